@@ -249,14 +249,16 @@ func VerifH_C11_History() {
 			// C04.O2: a new commit's height is one more than the greatest height among its parents, its parents
 			// are the previous heads, and afterwards it is the only head
 			writesSoFar[i]++
-			vAssert(stored.Delta.GetPriority() == writesSoFar[i], "height-is-one-more-than-parents")
-			if writesSoFar[i] == 1 {
-				vAssert(len(stored.Heads) == 0, "first-commit-has-no-parents")
-			} else {
-				vAssert(len(stored.Heads) == 1 && stored.Heads[0].Cid == lastHead[i], "parents-are-the-previous-heads")
+			if vConfInt("c04") != 0 { // (asserted only when the harness runs for C04)
+				vAssert(stored.Delta.GetPriority() == writesSoFar[i], "height-is-one-more-than-parents")
+				if writesSoFar[i] == 1 {
+					vAssert(len(stored.Heads) == 0, "first-commit-has-no-parents")
+				} else {
+					vAssert(len(stored.Heads) == 1 && stored.Heads[0].Cid == lastHead[i], "parents-are-the-previous-heads")
+				}
+				hl, hmax, herr := NewHeadSet(t.head, reg.HeadstorePrefix()).List(ctx)
+				vAssert(herr == nil && len(hl) == 1 && hl[0] == lnk.Cid && hmax == writesSoFar[i], "new-commit-is-the-only-head")
 			}
-			hl, hmax, herr := NewHeadSet(t.head, reg.HeadstorePrefix()).List(ctx)
-			vAssert(herr == nil && len(hl) == 1 && hl[0] == lnk.Cid && hmax == writesSoFar[i], "new-commit-is-the-only-head")
 			lastHead[i] = lnk.Cid
 			data := stored.Delta.GetData()
 			if covered(i) {
@@ -313,12 +315,14 @@ func VerifH_C11_MixedHeads() {
 	}
 	// the peer's plaintext root block of the same field, stored and registered as a head the way ProcessBlock does
 	peerFirst := vBool("peer-head-sorts-first")
+	// (the peer's block may sit at any height of the peer's own history of the field)
+	peerHeight := uint64(1 + vChoose("peer-height", 3))
 	var b1 cidlink.Link
 	for k := 0; k < 256; k++ {
 		if vSymbolic() {
 			cLowRank = peerFirst
 		}
-		peer := New(&crdt.LWWDelta{DocID: []byte(cDocID), FieldName: "f", SchemaVersionID: "sv1", Priority: 1, Data: []byte{'p', byte(k)}}, nil)
+		peer := New(&crdt.LWWDelta{DocID: []byte(cDocID), FieldName: "f", SchemaVersionID: "sv1", Priority: peerHeight, Data: []byte{'p', byte(k)}}, nil)
 		b1, err = putBlock(base, t.bs, peer)
 		vAssert(err == nil, "peer-block-stored")
 		if err != nil {
@@ -330,7 +334,7 @@ func VerifH_C11_MixedHeads() {
 		}
 	}
 	hs := NewHeadSet(t.head, reg.HeadstorePrefix())
-	vAssert(hs.Write(base, b1.Cid, 1) == nil, "peer-head-written")
+	vAssert(hs.Write(base, b1.Cid, peerHeight) == nil, "peer-head-written")
 	hl, _, herr := hs.List(base)
 	vAssert(herr == nil && len(hl) == 2, "two-heads")
 	vObserve("first-head-is-peer", len(hl) == 2 && hl[0] == b1.Cid)
@@ -348,7 +352,18 @@ func VerifH_C11_MixedHeads() {
 		return
 	}
 	vCover("mixed")
-	vAssert(len(stored.Heads) == 2, "both-heads-are-parents")
+	if vConfInt("c04") != 0 {
+		// C04.O2 with more than one head: the parents are the previous heads, the height is one more than the greatest
+		// height among them, and afterwards the new commit is the only head
+		vAssert(len(stored.Heads) == 2 && stored.Heads[0].Cid != stored.Heads[1].Cid &&
+			(stored.Heads[0].Cid == a1.Cid || stored.Heads[0].Cid == b1.Cid) && (stored.Heads[1].Cid == a1.Cid || stored.Heads[1].Cid == b1.Cid),
+			"parents-are-the-previous-heads")
+		vAssert(stored.Delta.GetPriority() == peerHeight+1, "height-is-one-more-than-the-greatest-parent-height")
+		nl, nmax, nerr := hs.List(base)
+		vAssert(nerr == nil && len(nl) == 1 && nl[0] == lnk.Cid && nmax == peerHeight+1, "new-commit-is-the-only-head")
+		return
+	}
+	vBound(len(stored.Heads) == 2, "scenario-has-two-heads")
 	vAssert(!bytes.Equal(stored.Delta.GetData(), payload), "mixed-heads-stored-block-is-not-plaintext")
 	vAssert(stored.Encryption != nil, "mixed-heads-stored-block-carries-encryption-link")
 	if !vSymbolic() {
